@@ -7,6 +7,8 @@ import (
 	"context"
 	"encoding/json"
 	"fmt"
+	"math"
+	"math/big"
 	"math/rand"
 	"path"
 	"sort"
@@ -129,7 +131,44 @@ type vfc32RetBlock struct {
 	MaxTime     int64  `json:"max_time_ms"`
 	RetentionNs int64  `json:"retention_ns"`
 	OffsetNs    int64  `json:"offset_ns"`
+	Far         string `json:"far_value,omitempty"`
 	Marked      bool   `json:"marked"`
+}
+
+var vfc32FarNames = []string{"now-10y", "now-50y", "now-200y", "now-291y", "now-293y", "now-300y", "now-412y", "now-500y", "now-585y", "now-1000y",
+	"now+10y", "now+50y", "now+200y", "now+291y", "now+293y", "now+300y", "now+412y", "now+500y", "now+584y", "now+585y", "now+1000y",
+	"epoch", "minus-one", "max-int64", "min-int64", "max-int64/1000", "min-int64/1000", "max-int64/1000000", "now+1h", "now+1ms"}
+
+// vfc32Far maps a name to a MaxTime in milliseconds.
+func vfc32Far(name string, nowMs int64) int64 {
+	const yearMs = int64(365.25 * 24 * 3600 * 1000)
+	switch name {
+	case "epoch":
+		return 0
+	case "minus-one":
+		return -1
+	case "max-int64":
+		return math.MaxInt64
+	case "min-int64":
+		return math.MinInt64
+	case "max-int64/1000":
+		return math.MaxInt64 / 1000
+	case "min-int64/1000":
+		return math.MinInt64 / 1000
+	case "max-int64/1000000":
+		return math.MaxInt64 / 1000000
+	case "now+1h":
+		return nowMs + 3600000
+	case "now+1ms":
+		return nowMs + 1
+	}
+	var y int64
+	var sign byte
+	fmt.Sscanf(name, "now%c%dy", &sign, &y)
+	if sign == '-' {
+		return nowMs - y*yearMs
+	}
+	return nowMs + y*yearMs
 }
 
 func vfc32Retention(ctx context.Context, r *vfkit.Run, c int, rng *rand.Rand, logger log.Logger) {
@@ -158,7 +197,12 @@ func vfc32Retention(ctx context.Context, r *vfkit.Run, c int, rng *rand.Rand, lo
 		R := ret[ResolutionLevel(res)]
 		off := vfc32Offsets[rng.Intn(len(vfc32Offsets))]
 		var maxT int64
+		far := ""
 		switch {
+		case R != 0 && rng.Intn(5) == 0:
+			// far past / far future / sentinel MaxTime values: the ages involved do not fit a time.Duration (int64 nanoseconds, +-292 years)
+			far = vfkit.Pick(rng, vfc32FarNames)
+			maxT = vfc32Far(far, t0ms)
 		case R == 0:
 			maxT = t0ms - rng.Int63n(int64(10*365*24*time.Hour/time.Millisecond))
 		case rng.Intn(3) == 0:
@@ -182,7 +226,7 @@ func vfc32Retention(ctx context.Context, r *vfkit.Run, c int, rng *rand.Rand, lo
 		m.Thanos.Downsample.Resolution = res
 		m.Thanos.Labels = map[string]string{"e": "1"}
 		metas[id] = m
-		blocks = append(blocks, &vfc32RetBlock{ID: id.String(), Resolution: res, MaxTime: maxT, RetentionNs: int64(R), OffsetNs: int64(off)})
+		blocks = append(blocks, &vfc32RetBlock{ID: id.String(), Resolution: res, MaxTime: maxT, RetentionNs: int64(R), OffsetNs: int64(off), Far: far})
 	}
 	err := ApplyRetentionPolicyByResolution(ctx, logger, bkt, metas, ret, vfc32Counter())
 	t1 := time.Now()
@@ -202,14 +246,17 @@ func vfc32Retention(ctx context.Context, r *vfkit.Run, c int, rng *rand.Rand, lo
 		R := time.Duration(b.RetentionNs)
 		off := time.Duration(b.OffsetNs)
 		if R != 0 {
-			r.Distinct(fmt.Sprintf("ret|%d|%d|%d|%d", b.Resolution, b.RetentionNs, b.OffsetNs, b.MaxTime%1000))
+			r.Distinct(fmt.Sprintf("ret|%d|%d|%d|%d|%s", b.Resolution, b.RetentionNs, b.OffsetNs, b.MaxTime%1000, b.Far))
 		}
-		if off > -50*time.Millisecond && off < 50*time.Millisecond && R != 0 {
+		if off > -50*time.Millisecond && off < 50*time.Millisecond && R != 0 && b.Far == "" {
 			r.Count("retention_within_50ms_of_boundary", 1)
 		}
-		r.Sample(map[string]any{"driver": "retention", "resolution": b.Resolution, "retention": R.String(), "maxtime_offset_from_boundary": off.String(), "maxtime_ms_fraction": b.MaxTime % 1000, "marked": b.Marked})
+		r.Sample(map[string]any{"driver": "retention", "resolution": b.Resolution, "retention": R.String(), "maxtime_offset_from_boundary": off.String(), "maxtime_ms_fraction": b.MaxTime % 1000, "far_value": b.Far, "marked": b.Marked})
+		if b.Far != "" {
+			r.Count("retention_far_values", 1)
+		}
 		if !b.Marked {
-			if R != 0 && off <= -2*time.Second {
+			if R != 0 && b.Far == "" && off <= -2*time.Second {
 				r.Count("retention_old_block_not_marked", 1) // liveness is not part of the property
 			}
 			continue
@@ -219,6 +266,19 @@ func vfc32Retention(ctx context.Context, r *vfkit.Run, c int, rng *rand.Rand, lo
 			"retention_by_resolution_ns": map[string]int64{"0": int64(ret[0]), "300000": int64(ret[300000]), "3600000": int64(ret[3600000])}}
 		if R == 0 {
 			r.Violation(c, "retention:marked-with-retention-disabled", fmt.Sprintf("block of resolution %d marked for deletion although its retention is 0 (disabled)", b.Resolution), wit)
+			continue
+		}
+		if b.Far != "" {
+			// exact arithmetic: age of the newest possible sample (MaxTime - 1 ms) at t1, in nanoseconds
+			ageNs := new(big.Int).Sub(big.NewInt(t1.UnixNano()), new(big.Int).Mul(new(big.Int).Sub(big.NewInt(b.MaxTime), big.NewInt(1)), big.NewInt(int64(time.Millisecond))))
+			r.Count("retention_far_values_marked", 1)
+			if ageNs.Cmp(big.NewInt(int64(R))) <= 0 {
+				fp := "retention:marked-before-retention-elapsed:early-by-1s-or-more"
+				if ageNs.Sign() < 0 {
+					fp = "retention:marked-although-newest-sample-lies-in-the-future"
+				}
+				r.Violation(c, fp, fmt.Sprintf("block with MaxTime %d ms (%s) marked for deletion although its newest sample is %s ns old at the end of the call, retention %v", b.MaxTime, b.Far, ageNs.String(), R), wit)
+			}
 			continue
 		}
 		// newest possible sample = MaxTime - 1 ms; its age at t1 (the latest instant the code can have read)
@@ -349,16 +409,18 @@ func vfc32Cleaner(ctx context.Context, r *vfkit.Run, c int, rng *rand.Rand, logg
 // ---- (C) partial uploads ---------------------------------------------------------------------
 
 type vfc32PartBlock struct {
-	ID            string           `json:"id"`
-	Partial       bool             `json:"partial"`
-	MarkInBucket  bool             `json:"deletion_mark_in_bucket"`
-	MarkGiven     bool             `json:"in_given_deletion_mark_set"`
-	GivenPartial  bool             `json:"in_given_partial_set"`
-	ULIDTimeMs    int64            `json:"ulid_time_ms"`
-	LastModified  map[string]int64 `json:"served_last_modified_unix_ns"`
-	LastTouchNs   int64            `json:"last_touch_unix_ns"`
-	OffsetNs      int64            `json:"offset_ns"`
-	Before, After []string
+	ID                string           `json:"id"`
+	Partial           bool             `json:"partial"`
+	MarkInBucket      bool             `json:"deletion_mark_in_bucket"`
+	MarkGiven         bool             `json:"in_given_deletion_mark_set"`
+	GivenPartial      bool             `json:"in_given_partial_set"`
+	ULIDTimeMs        int64            `json:"ulid_time_ms"`
+	LastModified      map[string]int64 `json:"served_last_modified_unix_ns"`
+	LastTouchNs       int64            `json:"last_touch_unix_ns"`
+	OffsetNs          int64            `json:"offset_ns"`
+	ListingFails      bool             `json:"attribute_listing_fails,omitempty"`
+	ListingFailsAfter int              `json:"attribute_listing_fails_after_entries,omitempty"`
+	Before, After     []string
 }
 
 func vfc32Partial(ctx context.Context, r *vfkit.Run, c int, rng *rand.Rand, logger log.Logger) {
@@ -366,6 +428,7 @@ func vfc32Partial(ctx context.Context, r *vfkit.Run, c int, rng *rand.Rand, logg
 	bkt := core.view("compactor", false)
 	noLastMod := rng.Intn(4) == 0
 	wired := rng.Intn(2) == 0
+	listFaults := !noLastMod && rng.Intn(3) == 0 // the attribute listing of some blocks fails (before / after some entries); plain Iter, Get and Delete work
 	core.noLastMod = noLastMod
 	nb := 1 + rng.Intn(6)
 	var blocks []*vfc32PartBlock
@@ -375,8 +438,9 @@ func vfc32Partial(ctx context.Context, r *vfkit.Run, c int, rng *rand.Rand, logg
 		// off > 0: the block was touched `off` too recently; off <= 0: untouched long enough
 		touch := now.Add(-PartialUploadThresholdAge).Add(off)
 		var ulidMs int64
+		listFault := listFaults && rng.Intn(2) == 0
 		switch {
-		case noLastMod:
+		case noLastMod || listFault:
 			ulidMs = touch.UnixMilli()
 		case rng.Intn(2) == 0:
 			ulidMs = now.Add(-3 * PartialUploadThresholdAge).UnixMilli() // created long ago, objects touched later
@@ -414,7 +478,13 @@ func vfc32Partial(ctx context.Context, r *vfkit.Run, c int, rng *rand.Rand, logg
 			core.setLastModified(nm, lm)
 			b.LastModified[nm] = lm.UnixNano()
 		}
-		if noLastMod {
+		if listFault {
+			b.ListingFailsAfter = rng.Intn(3)
+			b.ListingFails = true
+			core.setAttrIterFault(id.String(), b.ListingFailsAfter)
+		}
+		if noLastMod || listFault {
+			// nothing (usable) is served: the documented fallback, the block's creation time from its ULID, is the last touch
 			b.LastTouchNs = ulidMs * int64(time.Millisecond)
 		} else {
 			b.LastTouchNs = touch.UnixNano()
@@ -465,10 +535,13 @@ func vfc32Partial(ctx context.Context, r *vfkit.Run, c int, rng *rand.Rand, logg
 	for _, b := range blocks {
 		r.Eval(1)
 		if b.Partial {
-			r.Distinct(fmt.Sprintf("partial|%v|%v|%d|%v|%v", noLastMod, wired, b.OffsetNs, b.MarkInBucket, b.ULIDTimeMs > now.Add(-2*time.Hour).UnixMilli()))
+			r.Distinct(fmt.Sprintf("partial|%v|%v|%d|%v|%v|%v|%d", noLastMod, wired, b.OffsetNs, b.MarkInBucket, b.ULIDTimeMs > now.Add(-2*time.Hour).UnixMilli(), b.ListingFails, b.ListingFailsAfter))
+			if b.ListingFails {
+				r.Count("partial_blocks_with_failing_attribute_listing", 1)
+			}
 		}
 		touched := len(b.After) != len(b.Before)
-		r.Sample(map[string]any{"driver": "partial", "arguments_from_real_fetcher": wired, "bucket_serves_last_modified": !noLastMod, "partial": b.Partial, "deletion_mark_in_bucket": b.MarkInBucket,
+		r.Sample(map[string]any{"driver": "partial", "arguments_from_real_fetcher": wired, "bucket_serves_last_modified": !noLastMod, "partial": b.Partial, "attribute_listing_fails": b.ListingFails, "deletion_mark_in_bucket": b.MarkInBucket,
 			"last_touch_offset_from_threshold": time.Duration(b.OffsetNs).String(), "removed": touched})
 		if !touched {
 			continue
@@ -493,6 +566,9 @@ func vfc32Partial(ctx context.Context, r *vfkit.Run, c int, rng *rand.Rand, logg
 			src := "last-modified"
 			if noLastMod {
 				src = "ulid-time"
+			}
+			if b.ListingFails {
+				src = "ulid-time-after-listing-error"
 			}
 			r.Violation(c, "partial:removed-before-abort-threshold:"+src+":"+vfc32Early(by),
 				fmt.Sprintf("partial block removed although at the end of the call it had been untouched for only %v (< %v; at least %v early; last touch taken from %s)", age, PartialUploadThresholdAge, by, src), wit)
